@@ -446,3 +446,72 @@ class SkyMask(_NumericJob):
             w = np.argwhere(np.asarray(out, dtype=float) != exp)[:3].tolist()
             bad.append(("zero_exactly_within_ngrow_of_a_flagged_pixel", "dtype %s ngrow %d: differs at %s" % (om.dtype, g, w)))
         return bad
+
+
+# ---------------------------------------------------------------------------
+# djs_reject with grow: any length, any grow >= 1 (level P; the grow loop is cut at its invariant)
+# ---------------------------------------------------------------------------
+class _RejectGrowAll(_Reject):
+    """outmask[i] <=> eligible(i) and no rejected point within `grow` samples of i, for arrays of every length and every grow >= 1"""
+    sigma_kind = "array"
+    level = "P"
+    max_paths = 800
+    # the invariant-step and the final postcondition alternate quantifiers: z3 does not decide them, cvc5 does in about a second --
+    # short z3 budget, cvc5 first among the fall-backs, generous cvc5 limit so that a busy machine does not flip the verdict
+    wall_ms = 5_000
+    fb_limit = 24
+    fb_first = "cvc5"
+    cvc5_tlimit_ms = 120_000
+    assumptions = _Reject.assumptions + ["grow >= 1 symbolic; index arrays derived from the nonzero enumeration are modelled position-wise (T-nonzero)"]
+
+    def cases(self, tier):
+        if self.masks == (True, True):
+            return [((False, True, False), self.masks)]      # with inmask / outmask / sticky only the upper limit: all three limits are undecided by z3 and cvc5
+        return [((False, True, False), self.masks), ((True, True, True), self.masks)]
+
+    def inputs(self):
+        d = _Reject.inputs(self)
+        d["grow"] = sym_int("grow")
+        return d
+
+    def requires(self, **a):
+        return S.AND(_Reject.requires(self, **a), a["grow"] >= 1)
+
+    def _rejected(self, a):
+        diff, sg, iv, im, om = self._pieces(**a)
+        lower, upper, maxdev, sticky = a["lower"], a["upper"], a["maxdev"], a["sticky"]
+
+        def bad(i):
+            eligible = S.AND(im(i), S.OR(S.NOT(sticky), om(i)))
+            return S.AND(eligible, _bad(i, diff, sg, iv, lower, upper, maxdev))
+        return bad, (lambda i: S.AND(im(i), S.OR(S.NOT(sticky), om(i))))
+
+    def ensures(self, result, **a):
+        out, qdone = result
+        n, g = S.size(a["data"]), a["grow"]
+        bad, elig = self._rejected(a)
+        om = self._pieces(**a)[4]
+        near = lambda i: S.exists(0, n, lambda p: S.AND(bad(p), p - i <= g, i - p <= g))
+        return {"length": S.size(out) == n,
+                "mask_is_eligible_and_not_within_grow_of_a_rejected_point": S.forall(0, n, lambda i: S.iff(S.el(out, i), S.AND(elig(i), S.NOT(near(i))))),
+                "qdone_iff_mask_unchanged": S.iff(qdone, S.forall(0, n, lambda i: S.iff(S.el(out, i), om(i))))}
+
+    def loop_specs(self, a):
+        n = S.size(a["data"])
+
+        def inv(v):
+            rej = v.rejects
+            return [v.newmask.slen() == n, v.k >= 1,
+                    S.forall(0, n, lambda q: S.iff(S.el(v.newmask, q), S.NOT(S.exists(0, n, lambda p: S.AND(S.el(rej, p), p - q <= v.k - 1, q - p <= v.k - 1)))))]
+        return {"range(1, grow": dict(inv=inv)}
+
+    def samples(self, rng):
+        for d in _Reject.samples(self, rng):
+            d["grow"] = rng.randint(1, 3)
+            yield d
+
+
+for _m in ((False, False), (True, True)):
+    _nm = "%s%s" % ("in" if _m[0] else "x", "out" if _m[1] else "x")
+    _cls = type("RejectGrowAll_" + _nm, (_RejectGrowAll,), dict(masks=_m, name="djs_reject_grow_all_sizes_" + _nm, __module__=__name__))
+    globals()[_cls.__name__] = register("C17")(_cls)
